@@ -392,13 +392,42 @@ class StmtMixin:
             self.loop_counter = saved
         return s.written
 
-    def havoc_written(self, st: State, written, names):
+    def _preexisting(self, ref_term, limit):
+        """a reference constant created before the loop (parameters and objects allocated earlier)"""
+        if not (z3.is_const(ref_term) and ref_term.decl().kind() == z3.Z3_OP_UNINTERPRETED):
+            return False
+        nm = ref_term.decl().name()
+        if "!" not in nm:
+            return True
+        try:
+            return int(nm.rsplit("!", 1)[1]) < limit
+        except ValueError:
+            return False
+
+    def havoc_written(self, st: State, written, names, limit=None):
+        by_field = {}
         for w in written:
             if w[0] == "heap":
-                _, c, f = w
-                ty = self.heap_types[(c, f)]
-                self.heap_arr(st, c, f, ty)
+                by_field.setdefault((w[1], w[2]), []).append(w[3] if len(w) > 3 else None)
+        for (c, f), refs in by_field.items():
+            ty = self.heap_types[(c, f)]
+            arr = self.heap_arr(st, c, f, ty)
+            pointwise = limit is not None and all(r is not None and self._preexisting(r, limit) for r in refs)
+            if pointwise:
+                # every write of an iteration goes to an object that existed before the loop:
+                # only those objects' fields are arbitrary at the loop head
+                seen = set()
+                for r in refs:
+                    if r.get_id() in seen:
+                        continue
+                    seen.add(r.get_id())
+                    arr = z3.Store(arr, r, z3.Const(fresh_name(f"hv_{c}.{f}"), self.sort(ty)))
+                st.heap[(c, f)] = arr
+            else:
                 st.heap[(c, f)] = z3.Const(fresh_name(f"H_{c}.{f}"), z3.ArraySort(self.S.Ref, self.sort(ty)))
+        for w in written:
+            if w[0] == "heap":
+                continue
             elif w[0] == "glob":
                 t = self.reg.globals.get(w[1])
                 cur = st.glob.get(w[1])
@@ -469,8 +498,11 @@ class StmtMixin:
             hv = st.fork()
             # which locations does an iteration write?  (discovery from the loop head)
             probe = hv.fork()
+            from .core import _fresh
+            import itertools as _it
+            limit = next(_fresh)
             written = self._discover_iteration(probe, head, body, step)
-            self.havoc_written(hv, written, names)
+            self.havoc_written(hv, written, names, limit=limit)
             if after_havoc is not None:
                 after_havoc(hv)
             self.assume_invariants(spec, hv)
